@@ -76,6 +76,40 @@ def _problem_kind(p):
     return "other"
 
 
+def _case(ctx, extra):
+    """The replay case of a monitor violation: the case the check was working on (so that a replay re-runs it), plus what the monitor saw."""
+    cur = getattr(ctx, "current_case", None)
+    return dict(cur, monitor=extra) if isinstance(cur, dict) else extra
+
+
+def _not_held(inst, kwargs):
+    """Keyword arguments naming declared children that the new instance does not hold under that very name."""
+    cls = type(inst)
+    if "__init__" in vars(cls) or any("__init__" in vars(b) for b in cls.__mro__[:-1] if b.__name__ not in ("Aggregate", "list", "object") and "__init__" in vars(b)):
+        return []  # classes with a constructor of their own may rename or derive arguments
+    d = ref_decl.decl(cls)
+    out = []
+    for k, v in kwargs.items():
+        t = d.get(k)
+        if t is None or v is None:
+            continue
+        kind = ref_decl.kind_of(t)
+        have = inst.__dict__.get(k)
+        if kind == "sub":
+            if have is not v:
+                out.append((k, v, have))
+        elif kind == "elem":
+            try:
+                want = t.convert(v)
+            except Exception:  # noqa: would have been refused
+                continue
+            if want is None and have is None:
+                continue
+            if type(have) is not type(want) or (have != want and repr(have) != repr(want)):  # repr: NaN != NaN
+                out.append((k, v, have))
+    return out
+
+
 def install_init_monitor(prop="C04"):
     from ofxtools.models.base import Aggregate
 
@@ -84,6 +118,13 @@ def install_init_monitor(prop="C04"):
         with _lock:
             _state["init_calls"] += 1
         probs = ref_validate.check(inst, deep=False)
+        lost = _not_held(inst, kwargs)
+        if lost:
+            ctx = _state["ctx"]
+            if ctx is not None:
+                ctx.violation(f"instance-does-not-hold-what-it-was-given/{type(inst).__name__}.{lost[0][0]}",
+                              f"{type(inst).__name__}(**kwargs) returned normally but {lost[:3]} (attribute, given, stored)",
+                              _case(ctx, {"op": "init-postcondition", "cls": type(inst).__name__, "lost": [list(map(repr, x)) for x in lost[:5]], "kwargs": sorted(kwargs)}))
         if probs:
             ctx = _state["ctx"]
             if ctx is not None:
